@@ -91,3 +91,35 @@ func repeated(i int) *Case {
 	c.Ext = ld.Case{Files: map[string]string{"proj/compose.yaml": main, "proj/other.yml": other}, ComposeFiles: []string{"proj/compose.yaml"}, WorkingDir: "proj"}
 	return c
 }
+
+// nullBase: a base declared with an empty body (`base:` and nothing else), in the same or another
+// file: there is nothing to inherit, and the extending service still carries no `extends` afterwards.
+func nullBase(i int) *Case {
+	other := true // (an empty body is not valid in a file loaded with validation on)
+	chain := i%2 == 1 // web -> mid -> base(null)
+	main := "services:\n  web:\n    image: a\n    extends: {service: base}\n  base:\n"
+	files := map[string]string{}
+	if chain {
+		main = "services:\n  web:\n    image: a\n    extends: {service: mid}\n  mid:\n    extends: {service: base}\n    labels: {m: \"1\"}\n  base:\n"
+	}
+	flat := "services:\n  web:\n    image: a\n"
+	if chain {
+		flat = "services:\n  web:\n    image: a\n    labels: {m: \"1\"}\n"
+	}
+	if other {
+		files["proj/b.yml"] = "services:\n  base:\n"
+		main = "services:\n  web:\n    image: a\n    extends: {file: b.yml, service: base}\n"
+		if chain {
+			files["proj/b.yml"] = "services:\n  mid:\n    extends: {service: base}\n    labels: {m: \"1\"}\n  base:\n"
+			main = "services:\n  web:\n    image: a\n    extends: {file: b.yml, service: mid}\n"
+		}
+	}
+	c := &Case{Kind: "equivalence", Service: "web", Shape: "null-base/" + map[bool]string{false: "same-file", true: "other-file"}[other], Chain: 1, Repeat: 3, Input: "a base declared with an empty body"}
+	if chain {
+		c.Chain = 2
+	}
+	c.Flat = ld.Case{Files: map[string]string{"proj/compose.yaml": flat}, ComposeFiles: []string{"proj/compose.yaml"}, WorkingDir: "proj", Opts: ld.Opts{SkipConsistencyCheck: true}}
+	files["proj/compose.yaml"] = main
+	c.Ext = ld.Case{Files: files, ComposeFiles: []string{"proj/compose.yaml"}, WorkingDir: "proj", Opts: ld.Opts{SkipConsistencyCheck: true}}
+	return c
+}
